@@ -336,7 +336,7 @@ func (f *Frame) pureApp(name string, sig *types.Signature, args []T) T {
 	f.enc.declSortOf(rs)
 	fn := f.enc.declFun("pure_"+name, sorts, rs)
 	f.enc.assumed["pure "+name+": treated as a side-effect-free function of its arguments"] = true
-	return App(rs, fn, args...)
+	return f.enc.cachedApp(App(rs, fn, args...))
 }
 
 func (f *Frame) doInvoke(v ssa.Value, c *ssa.CallCommon, pos token.Pos) {
@@ -578,4 +578,17 @@ func (f *Frame) frameCheckMap(mv ssa.Value, m T, mt *types.Map, pos token.Pos) {
 	if f.frameMapHook != nil {
 		f.frameMapHook(mv, m, mt, pos)
 	}
+}
+
+// cachedApp: one named symbol per distinct application term, so sort facts attach to it.
+func (e *Enc) cachedApp(t T) T {
+	if e.appCache == nil {
+		e.appCache = map[string]T{}
+	}
+	if s, ok := e.appCache[t.S]; ok {
+		return s
+	}
+	s := e.define("app", t)
+	e.appCache[t.S] = s
+	return s
 }
